@@ -102,7 +102,10 @@ def gen(repo):
     g = comp.generators[0]
     if ast.unparse(g.target) != 'val' or ast.unparse(g.iter) != 'self._seq' or g.is_async:
         raise TranslationError('_numbers: iterates `%s in %s`' % (ast.unparse(g.target), ast.unparse(g.iter)))
-    cx = Ctx({'numbers.Number': 'is_Number', 'NUMBER': 'is_Number'}, {},
+    # the type tests a filter over stored cells may use (Base/PyVal.v); a narrower test than numbers.Number translates,
+    # and then fails the refinement proof (Proofs/StatsRefine.v numbers_pcell) on NumPy scalar cells
+    cx = Ctx({'numbers.Number': 'is_Number', 'NUMBER': 'is_Number', '(int, float)': 'is_int_or_float',
+              'int': 'is_int', 'float': 'is_float', 'numbers.Integral': 'is_Integral'}, {},
              {'self._nanorinf': ('k_nanorinf', 'res bool'), 'float': ('b_float', 'res pyv')})
     cx.locals = {'val'}
     if len(g.ifs) == 0:
